@@ -225,6 +225,12 @@ def run_one(vname, prop, tier, seed, shard, nshards, outdir, extra_env, timeout)
         res["status"] = "tool_report"
     else:
         res["status"] = "harness_error"
+        if variant(vname)["kind"] == "miri" and not (extra_env or {}).get("_retried") and \
+                ("error: extern location" in r.stdout or "could not compile" in r.stdout):
+            # a cargo-level build hiccup, not an observation of the code under test: one retry
+            e2 = dict(extra_env or {})
+            e2["_retried"] = "1"
+            return run_one(vname, prop, tier, seed, shard, nshards, outdir, e2, timeout)
     return res
 
 
@@ -245,10 +251,13 @@ def journal_rerun(vname, prop, tier, seed, shard, nshards, outdir, extra_env, ti
 def run_shards(vname, prop, tier, seed, nshards=None, extra_env=None, timeout=600, jobs=None):
     nshards = nshards or NCPU
     outdir = scratch_dir()
-    if variant(vname)["kind"] != "miri":
-        build(vname)
-    else:
-        build(vname)
+    build(vname)
+    if variant(vname)["kind"] == "miri":
+        # `cargo miri run` builds as part of running; do that once, alone, before the shards start in
+        # parallel (16 concurrent cargo invocations on a cold target dir once produced
+        # "extern location for hverif does not exist" in one of them)
+        cmd, env = worker_cmd(vname, ["help"])
+        subprocess.run(cmd, env=env, stdout=subprocess.PIPE, stderr=subprocess.STDOUT, text=True, timeout=1800)
     with ThreadPoolExecutor(max_workers=jobs or NCPU) as ex:
         futs = [ex.submit(run_one, vname, prop, tier, seed, s, nshards, outdir, extra_env, timeout) for s in range(nshards)]
         res = [f.result() for f in futs]
